@@ -2,7 +2,7 @@
 # usage: validate_seed.sh <id> <variant>   - confirms a sub-agent's seeded change in its scratch worktree
 # result lines go to /tmp/seed/out/<id>/<variant>/validation.txt
 id=$1; v=$2
-wt=/tmp/seed/$id; out=/tmp/seed/out/$id/$v
+base=${3:-/tmp/seed}; wt=$base/$id; out=$base/out/$id/$v
 cd $wt || exit 2
 git checkout -q -- . ; rm -f tests/seed_demo.rs
 res=$out/validation.txt; : > $res
